@@ -454,6 +454,8 @@ def render(c):
         if kind == "empty":
             return "xpath", {"0": b"", "1": b" ", "2": b"()", "3": b"[]", "4": b"a[]", "5": b"f(", "6": b"1 2", "7": b"a b", "8": b"'a' 'b'", "9": b"@", "10": b"a::", "11": b"..a", "12": b"a/[1]"}[v], fl
         return None
+    if cls == "undefinedVariable":
+        return c["role"], v.encode(), fl
     if cls == "xpathIllegalChar":
         return "xpath", XPATH_ODD[i - 1].encode("utf-8", "surrogatepass"), fl
     raise KeyError(cls)
